@@ -12,7 +12,9 @@ Representation.  One light record `Sk` for both container types: `mins` is the s
 `abunds` the abundance list aligned with it (`Vec<u64>`, resp. the values of the `BTreeMap` in key
 order — the tree keeps `abunds.keys() = mins`, which is part of C01).  The md5 cache is C13's and the
 tree's `current_max` field equals `max(mins)` (or 0) after every public call since the repair
-`cfc6bfc`; it is modelled as that derived value.  Where the two types differ (`add` with abundance 0,
+`cfc6bfc`; it is modelled as that derived value — except for a sketch made by the public builder
+without the field (and its clones), for which the section "sketches that were not made by `new` +
+insertions" at the end of the file carries the field explicitly (`Sk.addTc`, `Sk.removeTc`).  Where the two types differ (`add` with abundance 0,
 the shape of `merge`) there are two definitions selected by `Kind`.  u64 arithmetic is modelled on
 `Nat`: abundance sums are assumed not to overflow (the harness is built with overflow checks, an
 overflow would surface as `PANIC`).
@@ -461,5 +463,68 @@ def keepScaled (s : Sk) (sel : Nat) : Bool := s.scaled ≠ 0 ∧ s.scaled ≤ se
 def selectScaled (k : Kind) (sks : List Sk) (sel : Nat) : Except Err (List Sk) :=
   (sks.filter (keepScaled · sel)).mapM
     (fun s => if s.scaled % 2 ^ 32 < sel then downsampleScaled k s sel else .ok s)
+
+/-! ### sketches that were not made by `new` + insertions
+
+The public `TypedBuilder` of both types takes the content ready-made (`mins`, `abunds`); the tree
+type's builder also exposes the cache `current_max` and leaves it at its default 0 when only `mins`
+is given, and `Clone` copies the field.  For such a sketch the cache is NOT `max(mins)`, so the code
+paths that read it (`add_hash_with_abundance`, `remove_hash`) are written here once more with the
+cache as an explicit argument/result; `Sk.addTc_fst` (Theorems/C03) shows that with the exact cache
+this is `Sk.addT`. -/
+
+/-- the largest hash (`*self.mins.iter().next_back().unwrap_or(&0)`) -/
+def Sk.curMax (s : Sk) : Nat := s.mins.getLast?.getD 0
+
+/-- `KmerMinHashBTree::add_hash_with_abundance` with the field `current_max` explicit: (sketch, cache) -/
+def Sk.addTc (s : Sk) (cm h a : Nat) : Sk × Nat :=
+  if h > s.maxHash ∧ s.maxHash ≠ 0 then (s, cm)
+  else if s.num = 0 ∧ s.maxHash = 0 then (s, cm)
+  else if a = 0 then (s, cm)
+  else if s.mins = [] then ({ s with mins := [h], abunds := s.abunds.map (fun _ => [a]) }, h)
+  else
+    if h ≤ s.maxHash ∨ h ≤ cm ∨ s.mins.length < s.num then
+      let p := pos s.mins h
+      let isNew := s.mins[p]? ≠ some h
+      let m := if isNew then insertAt s.mins p h else s.mins
+      let ab := s.abunds.map (fun l => if isNew then insertAt l p a else bump l p a)
+      let cm1 := if isNew ∧ h > cm then h else cm
+      if s.num ≠ 0 ∧ m.length > s.num then
+        ({ s with mins := m.dropLast, abunds := ab.map List.dropLast }, m.dropLast.getLast?.getD 0)
+      else ({ s with mins := m, abunds := ab }, cm1)
+    else (s, cm)
+
+/-- `KmerMinHashBTree::remove_hash` with the cache explicit: it is recomputed only when the removed
+value equals it -/
+def Sk.removeTc (s : Sk) (cm h : Nat) : Sk × Nat :=
+  let s' := s.remove h
+  (s', if h = cm then s'.curMax else cm)
+
+def Sk.addManyAbTc (s : Sk) (cm : Nat) (ps : List (Nat × Nat)) : Sk × Nat :=
+  ps.foldl (fun sc p => sc.1.addTc sc.2 p.1 p.2) (s, cm)
+def Sk.addManyTc (s : Sk) (cm : Nat) (hs : List Nat) : Sk × Nat :=
+  hs.foldl (fun sc h => sc.1.addTc sc.2 h 1) (s, cm)
+def Sk.removeManyTc (s : Sk) (cm : Nat) (hs : List Nat) : Sk × Nat :=
+  hs.foldl (fun sc h => sc.1.removeTc sc.2 h) (s, cm)
+
+/-- `From<KmerMinHashBTree> for KmerMinHash` (by value and by reference) and `From<KmerMinHash> for
+KmerMinHashBTree`: a `new(other.scaled(), ..)` sketch that takes over hashes and abundances — the
+ceiling is re-derived from `scaled()`; every other parameter and the content are kept (the tree side
+recomputes `current_max`). -/
+def Sk.convert (s : Sk) : Sk := { s with maxHash := Scaled.maxHashForScaled s.scaled }
+
+/-- `Deserialize` of what `Serialize` wrote: `num` is dropped when a ceiling is present (legacy-file
+rule), pairs are sorted by hash (already so for a sketch), everything else is kept -/
+def Sk.serdeRoundTrip (s : Sk) : Sk := { s with num := if s.maxHash ≠ 0 then 0 else s.num }
+
+/-- `Default::default()` of both types -/
+def Sk.defaultSk : Sk :=
+  { num := 1000, maxHash := 0, ksize := 21, seed := 42, mol := .dna, mins := [], abunds := none }
+
+/-- the "pour" idiom of downsampling (what the Python layer's `MinHash.downsample()` does through
+`kmerminhash_new` + `kmerminhash_add_from`): a new empty sketch at `scaled` with the other parameters
+of `s`, then `add_from(s)` -/
+def pourScaled (k : Kind) (s : Sk) (scaled : Nat) : Sk :=
+  (Sk.new scaled s.ksize s.mol s.seed s.track s.num).addFrom k s
 
 end SetOps
